@@ -142,11 +142,16 @@ def run(ctx: Ctx) -> None:
         "every unordered pair (rules 9, 10); D7.5 the end of a column "
         "closes the running streak. By induction over the scan the value "
         "returned is the documented per-rule count for every plan, hence 0 "
-        "exactly for plans violating none of rules 1-10. NOT decided: that "
-        "the count never exceeds the declared upper bound (4D-1)n-1 (it "
-        "does not for streak minima above 3 - observed outside this check, "
-        "see DESIGN 10.6), and that rules 1-10 are the right definition of "
-        "feasibility.")
+        "exactly for plans violating none of rules 1-10. D7.7 the declared "
+        "upper bound, normalised to a polynomial over the instance fields, "
+        "equals or is provably above the bound derived from the reference "
+        "step (lemma L7 in DESIGN section 4: per (team, day) at most 1 + "
+        "max(1, M-1) + S, per team M-1 at the end of the season, 2nD + "
+        "nD/2 in the final summation), and is refuted when a witness plan "
+        "family whose count is known in closed form scores more for a "
+        "setting the Instance constructor accepts (polynomial evaluation, "
+        "no execution). NOT decided: that rules 1-10 are the right "
+        "definition of feasibility.")
     ctx.rule("D7.1", "errors >= 0: every increment is non-negative")
     ctx.rule("D7.2", "scratch tables reset before use")
     ctx.rule("D7.3", "every constraint parameter is consumed")
@@ -320,6 +325,8 @@ def run(ctx: Ctx) -> None:
     _scratch_type(ctx)
     _final_agreement(ctx, fi)
     _wiring(ctx, fi)
+    from sa.checks import c07_bound
+    c07_bound.check(ctx)
 
 
 def _wiring(ctx: Ctx, k: FuncInfo) -> None:
